@@ -403,7 +403,15 @@ func Run(r *common.Run) error {
 		r.Mark("case duplex-concurrent %d", i)
 		runDuplexConcurrent(r, carrier, r.Pick(20, 60))
 	}
+	for i, carrier := range []string{"iq", "message"} {
+		r.Mark("case table-concurrent %d", i)
+		runTableConcurrent(r, carrier, r.Pick(6, 12))
+	}
 	if r.Race() {
+		for i := 0; i < 4; i++ {
+			r.Mark("case table-concurrent-race %d", i)
+			runTableConcurrent(r, []string{"iq", "message"}[i%2], 8+4*i)
+		}
 		for i := 0; i < 6; i++ {
 			r.Mark("case duplex-concurrent-race %d", i)
 			runDuplexConcurrent(r, []string{"iq", "message"}[i%2], 40+10*i)
